@@ -1413,4 +1413,92 @@ theorem invSolver_accepts (ns nc : Nat) : AcceptsOK (invSolver ns nc) := fun _ _
 
 end scope
 
+/-! ## Part 11 — `V_t`, `v_t` ARE the value function: second-order expansion of the optimal cost-to-go -/
+
+section valuefn
+variable {ns nc : Nat}
+variable (sol : Solver ℝ ns nc) (P : Prob ℝ ns nc) (dt : Nat) (xbar : Nat → Vec ℝ ns) (ubar : Nat → Vec ℝ nc)
+
+/-- the difference of the policy's inputs at two states is `K_t (x' - x)` -/
+theorem ctrl_sub (g : Gain ℝ ns nc) (t : Nat) (x x' : Vec ℝ ns) :
+    toFn (ctrl xbar ubar g t x') - toFn (ctrl xbar ubar g t x) = toM g.K *ᵥ (toFn x' - toFn x) := by
+  rw [ctrl_eq, ctrl_eq, Matrix.mulVec_sub, Matrix.mulVec_sub, Matrix.mulVec_sub]
+  abel
+
+/-- the second-order term between the policy roll-outs from two states is `½ (x'-x)ᵀ V_t (x'-x)` -/
+theorem gap_policy (A : Nat → Mat ℝ ns ns) (B : Nat → Mat ℝ ns nc) (c : Nat → Vec ℝ ns) (n : Nat) : ∀ (t : Nat),
+    (∀ s, t ≤ s → s + 1 < t + n → A (s * dt) = A s ∧ B (s * dt) = B s) →
+    ∀ (x x' : Vec ℝ ns),
+      gap (Sys.linear A B c) P t x
+          (fwFrom (Sys.linear A B c) P xbar ubar t t x (bwFrom sol (Sys.linear A B c) P dt xbar ubar t n).2).2.1 x'
+          (fwFrom (Sys.linear A B c) P xbar ubar t t x' (bwFrom sol (Sys.linear A B c) P dt xbar ubar t n).2).2.1
+        = (1:ℝ)/2 * ((toFn x' - toFn x) ⬝ᵥ Vp (bwFrom sol (Sys.linear A B c) P dt xbar ubar t n).1 *ᵥ (toFn x' - toFn x)) := by
+  induction n with
+  | zero => intro t _ x x'; simp [bwFrom_zero, fwFrom, gap, Vp]
+  | succ n ih =>
+    intro t hlin x x'
+    have IH := ih (t+1) (fun s h1 h2 => hlin s (by omega) (by omega))
+    set S := Sys.linear A B c with hS
+    set r := bwFrom sol S P dt xbar ubar (t+1) n with hr
+    rw [bwFrom_succ]
+    simp only [fwFrom_cons, gap]
+    set g := (stage sol S P dt xbar ubar t r.1).1 with hg
+    set u := ctrl xbar ubar g t x with hu
+    set u' := ctrl xbar ubar g t x' with hu'
+    rw [IH (S.f t x u) (S.f t x' u')]
+    set dx : Fin ns → ℝ := toFn x' - toFn x with hdx
+    have hdu : toFn u' - toFn u = toM g.K *ᵥ dx := ctrl_sub xbar ubar g t x x'
+    rw [hdu]
+    set K := toM g.K with hK
+    set F := Fmat S dt xbar ubar t with hF
+    -- the next-state difference is F (dx, K dx) when a value function follows; otherwise it is multiplied by V = 0
+    have hnext : (toFn (S.f t x' u') - toFn (S.f t x u)) ⬝ᵥ Vp r.1 *ᵥ (toFn (S.f t x' u') - toFn (S.f t x u))
+        = (F *ᵥ app dx (K *ᵥ dx)) ⬝ᵥ Vp r.1 *ᵥ (F *ᵥ app dx (K *ᵥ dx)) := by
+      cases hro : r.1 with
+      | none => simp [Vp]
+      | some w0 =>
+        have hn1 : 1 ≤ n := by
+          rcases n with _ | n
+          · rw [hr, bwFrom_zero] at hro; cases hro
+          · omega
+        have hFA : F = cat (toM (A t)) (toM (B t)) := by
+          rw [hF, Fmat, hS]
+          simp only [Sys.linear]
+          rw [(hlin t (le_refl _) (by omega)).1, (hlin t (le_refl _) (by omega)).2]
+        have hFd : F *ᵥ app dx (K *ᵥ dx) = toFn (S.f t x' u') - toFn (S.f t x u) := by
+          rw [hFA, cat_mulVec, vL_app, vR_app, hS, linear_f, linear_f, ← hdu, hdx, Matrix.mulVec_sub, Matrix.mulVec_sub]
+          abel
+        rw [hFd]
+    rw [hnext]
+    have hQt : toM (stageQ S P dt xbar ubar t r.1).1 = toM (P.Q t) + Fᵀ * Vp r.1 * F := stageQ_fst S P dt xbar ubar t r.1
+    have hV : Vp (some (stage sol S P dt xbar ubar t r.1).2)
+        = bXX (toM (stageQ S P dt xbar ubar t r.1).1) + bXU (toM (stageQ S P dt xbar ubar t r.1).1) * K
+          + Kᵀ * bUX (toM (stageQ S P dt xbar ubar t r.1).1) + Kᵀ * bUU (toM (stageQ S P dt xbar ubar t r.1).1) * K :=
+      stage_V sol S P dt xbar ubar t r.1
+    rw [hV, qf_value, hQt, qf_aug]
+    ring
+
+/-- **the backward recursion computes the value function**: with `J*_t(x)` the cost of the LQR policy from state `x` at step
+`t` (which is the optimal cost-to-go, `opt_identity`), for all states `x, x'`
+`J*_t(x') - J*_t(x) = λ_t(x)·(x'-x) + ½ (x'-x)ᵀ V_t (x'-x)` with `λ_t(x) = V_t (x - x̄_t) + v_t` —
+`V_t` is the Hessian and `V_t (x - x̄_t) + v_t` the gradient of the optimal cost-to-go. -/
+theorem value_function (hsol : SolverOK sol) (A : Nat → Mat ℝ ns ns) (B : Nat → Mat ℝ ns nc) (c : Nat → Vec ℝ ns)
+    (n t : Nat)
+    (hQ : ∀ s, t ≤ s → s < t + n → CostOK (toM (P.Q s)))
+    (hlin : ∀ s, t ≤ s → s + 1 < t + n → A (s * dt) = A s ∧ B (s * dt) = B s)
+    (hnom : ∀ s, t ≤ s → s + 1 < t + n → xbar (s+1) = (Sys.linear A B c).f s (xbar s) (ubar s))
+    (x x' : Vec ℝ ns) :
+    (fwFrom (Sys.linear A B c) P xbar ubar t t x' (bwFrom sol (Sys.linear A B c) P dt xbar ubar t n).2).2.2
+      - (fwFrom (Sys.linear A B c) P xbar ubar t t x (bwFrom sol (Sys.linear A B c) P dt xbar ubar t n).2).2.2
+    = lam xbar (bwFrom sol (Sys.linear A B c) P dt xbar ubar t n).1 t x ⬝ᵥ (toFn x' - toFn x)
+      + (1:ℝ)/2 * ((toFn x' - toFn x) ⬝ᵥ Vp (bwFrom sol (Sys.linear A B c) P dt xbar ubar t n).1 *ᵥ (toFn x' - toFn x)) := by
+  obtain ⟨_, hid⟩ := opt_identity sol P dt xbar ubar hsol A B c n t hQ hlin hnom
+  have hlen : (fwFrom (Sys.linear A B c) P xbar ubar t t x' (bwFrom sol (Sys.linear A B c) P dt xbar ubar t n).2).2.1.length = n := by
+    rw [fwFrom_length, bwFrom_length]
+  have h1 := hid x x' _ hlen
+  rw [fwFrom_sim] at h1
+  rw [h1, gap_policy sol P dt xbar ubar A B c n t hlin x x']
+
+end valuefn
+
 end PP.Lqr
